@@ -7,7 +7,7 @@ use crate::rng::Rng;
 use serde_json::json;
 use tls_parser::*;
 
-pub const RULE: &str = "ClientHello values obtained by parsing reference-encoded TLS and DTLS hellos and through new(); every trait accessor compared with the struct field (slices by address); rand_time/rand_bytes for 32-byte randoms with boundary leading words (0, 1, 0x7fffffff, 0x80000000, 0xffffffff, each single-byte pattern, every single bit) + random words, and for constructed randoms of length 4..64; cipher_suites()/get_ciphers()/get_cipher() against per-id registry lookup for all 65536 ids, and on constructed TLS (new()) and DTLS (struct literal) hellos whose cipher / compression lists have 0..2^20 entries (size classes around 2^7, 2^8, 2^12, 2^15, 2^16 and beyond, i.e. also lists that could never be parsed from the wire); new()/get_version() store-and-return. distinct_nontrivial = distinct (family, source, presence flags, length classes, leading word class) tuples";
+pub const RULE: &str = "ClientHello values obtained by parsing reference-encoded TLS and DTLS hellos and through new(); every trait accessor compared with the struct field (slices by address); rand_time/rand_bytes for 32-byte randoms with boundary leading words (0, 1, 0x7fffffff, 0x80000000, 0xffffffff, each single-byte pattern, every single bit) + random words, and for constructed randoms of length 4..64; cipher_suites()/get_ciphers()/get_cipher() against per-id registry lookup for all 65536 ids, for the full 2^32 cross product of hello version x cipher id (ServerHello get_cipher, TLS / DTLS cipher_suites, get_ciphers), as the first accessor call of a fresh thread for every registered id and boundary ids (call-history independence), and on constructed TLS (new()) and DTLS (struct literal) hellos whose cipher / compression lists have 0..2^20 entries (size classes around 2^7, 2^8, 2^12, 2^15, 2^16 and beyond, i.e. also lists that could never be parsed from the wire); new()/get_version() store-and-return. distinct_nontrivial = distinct (family, source, presence flags, length classes, leading word class) tuples";
 pub const ASSUMPTIONS: &[&str] = &["constructed randoms shorter than 4 bytes are not judged", "registry lookup itself is judged by C12; here only the per-id mapping in order"];
 
 fn same(a: &[u8], b: &[u8]) -> bool {
@@ -214,6 +214,102 @@ pub fn run(ctx: &mut Ctx) {
         ctx.shape(&("ids", idx));
     });
     ctx.mark_exhaustive("cipher_suites()/get_ciphers()/get_cipher() for all 65536 ids");
+
+    // ------------------------------------------------ the full cross product (hello version) x (cipher id): 2^32 lookups per
+    // accessor. The registry entry an id maps to never depends on anything else in the hello.
+    let wanted = ctx.family_wanted("version-x-cipher");
+    let want: Vec<usize> = if wanted { (0..=65535u16).map(|id| TlsCipherSuite::from_id(id).map(|x| x as *const TlsCipherSuite as usize).unwrap_or(0)).collect() } else { vec![] };
+    let all_ids: Vec<TlsCipherSuiteID> = if wanted { (0..=65535u16).map(TlsCipherSuiteID).collect() } else { vec![] };
+    ctx.floor("version-x-cipher.versions", 65536);
+    ctx.floor("version-x-cipher.list-versions", 5000);
+    let thorough_all = ctx.tier == crate::ctx::Tier::Thorough;
+    ctx.sweep("version-x-cipher", 4096, |ctx, idx| {
+        let random = [0x11u8; 32];
+        let cookie = [1u8, 2, 3];
+        let mut bad: Option<(&'static str, u16, u16)> = None;
+        for v in (idx * 16)..((idx + 1) * 16) {
+            let v = v as u16;
+            for id in 0..=65535u16 {
+                let sh = TlsServerHelloContents::new(v, &random, None, id, 0, None);
+                let got = sh.get_cipher().map(|x| x as *const TlsCipherSuite as usize).unwrap_or(0);
+                if got != want[id as usize] && bad.is_none() {
+                    bad = Some(("TlsServerHelloContents::get_cipher", v, id));
+                }
+            }
+            ctx.count("version-x-cipher.versions");
+            // the list accessors: every version in the thorough tier; in the quick tier the versions with a
+            // meaningful high byte and every 16th of the others (get_cipher above always sees all 2^32 pairs)
+            if !(thorough_all || v % 16 == 1 || matches!(v >> 8, 0x00 | 0x01 | 0x02 | 0x03 | 0x7f | 0xfe | 0xff)) {
+                continue;
+            }
+            ctx.count("version-x-cipher.list-versions");
+            let ch = TlsClientHelloContents::new(v, &random, None, all_ids.clone(), vec![], None);
+            let cs = ch.cipher_suites();
+            let gc = ch.get_ciphers();
+            let dh = DTLSClientHello { version: TlsVersion(v), random: &random, session_id: None, cookie: &cookie, ciphers: ch.ciphers, comp: vec![], ext: None };
+            let ds = dh.cipher_suites();
+            for (name, l) in [("TlsClientHelloContents::cipher_suites", &cs), ("TlsClientHelloContents::get_ciphers", &gc), ("DTLSClientHello::cipher_suites", &ds)] {
+                if l.len() != 65536 {
+                    bad = bad.or(Some((name, v, 0)));
+                    continue;
+                }
+                for (id, g) in l.iter().enumerate() {
+                    if g.map(|x| x as *const TlsCipherSuite as usize).unwrap_or(0) != want[id] && bad.is_none() {
+                        bad = Some((name, v, id as u16));
+                    }
+                }
+            }
+        }
+        ctx.evals(16 * 65536);
+        ctx.shape(&("version-x-cipher", idx / 64));
+        if let Some((name, v, id)) = bad {
+            ctx.violation(
+                format!("c15:version-x-cipher:{}", name),
+                json!({"accessor": name, "hello_version": format!("0x{:04x}", v), "cipher_id": format!("0x{:04x}", id), "what": "the accessor's answer for this id differs from the registry lookup of the id when the hello has this version"}),
+            );
+        }
+    });
+    ctx.mark_exhaustive("all 2^32 (hello version, cipher id) pairs through ServerHello get_cipher (thorough tier: also through cipher_suites (TLS, DTLS) and get_ciphers; quick tier: those for ~5800 versions x all ids)");
+
+    // ------------------------------------------------ call history: the accessors are functions of the hello alone. Each id of
+    // interest is looked up as the FIRST accessor call of a fresh thread (no earlier call can have left
+    // anything behind), then again after other lookups on the same thread.
+    ctx.floor("fresh-thread.ids", 300);
+    ctx.sweep("fresh-thread-first-call", 1, |ctx, _| {
+        let mut ids: Vec<u16> = vec![0x0000, 0x0001, 0x00ff, 0x1301, 0x5600, 0x0a0a, 0xfffe, 0xffff, 0x1234];
+        ids.extend(tls_parser::CIPHERS.keys().copied());
+        for id in ids {
+            let want = TlsCipherSuite::from_id(id).map(|x| x as *const TlsCipherSuite as usize);
+            let res = std::thread::spawn(move || {
+                let random = [3u8; 32];
+                let sh = TlsServerHelloContents::new(0x0303, &random, None, id, 0, None);
+                let first = sh.get_cipher().map(|x| x as *const TlsCipherSuite as usize);
+                let ch = TlsClientHelloContents::new(0x0303, &random, None, vec![TlsCipherSuiteID(id), TlsCipherSuiteID(0xc02f), TlsCipherSuiteID(id)], vec![], None);
+                let cs: Vec<Option<usize>> = ch.cipher_suites().iter().map(|x| x.map(|x| x as *const TlsCipherSuite as usize)).collect();
+                let again = sh.get_cipher().map(|x| x as *const TlsCipherSuite as usize);
+                (first, cs, again)
+            })
+            .join();
+            let res2 = std::thread::spawn(move || {
+                let random = [3u8; 32];
+                let ch = TlsClientHelloContents::new(0x0303, &random, None, vec![TlsCipherSuiteID(id)], vec![], None);
+                (ch.cipher_suites().first().copied().flatten().map(|x| x as *const TlsCipherSuite as usize), ch.get_ciphers().first().copied().flatten().map(|x| x as *const TlsCipherSuite as usize))
+            })
+            .join();
+            ctx.evals(6);
+            ctx.count("fresh-thread.ids");
+            let c02f = TlsCipherSuite::from_id(0xc02f).map(|x| x as *const TlsCipherSuite as usize);
+            let ok1 = matches!(&res, Ok((f, cs, a)) if *f == want && *a == want && cs.len() == 3 && cs[0] == want && cs[1] == c02f && cs[2] == want);
+            let ok2 = matches!(&res2, Ok((a, b)) if *a == want && *b == want);
+            if !(ok1 && ok2) {
+                ctx.violation(
+                    format!("c15:fresh-thread:{}", if !ok1 { "get_cipher-or-cipher_suites" } else { "cipher_suites-first-call" }),
+                    json!({"cipher_id": format!("0x{:04x}", id), "listed": want.is_some(), "what": "first accessor call on a fresh thread (and calls after it) must give the registry entry of the id"}),
+                );
+            }
+        }
+        ctx.shape(&("fresh-thread", 0));
+    });
 
     // ------------------------------------------------ constructed hellos (TLS new() and DTLS struct literal) with
     // lists of every size class, far beyond what fits on the wire: one result per advertised id, in order
